@@ -119,6 +119,32 @@ def gen_poly(r, var="x"):
     return {"k": "poly", "var": var, "verts": verts}
 
 
+_HOLES = [[(0.6, 0.6), (1.2, 0.6), (1.2, 1.2), (0.6, 1.2)], [(2.5, 0.8), (3.2, 0.8), (2.8, 1.5)],
+          [(1.0, 2.0), (1.8, 2.0), (1.4, 2.6)], [(2.4, 2.0), (3.4, 2.0), (3.4, 2.5), (2.4, 2.5)]]
+
+
+def gen_poly_holes(r, var="x"):
+    """A 4 x 3 rectangle (similarity transformed) with 0-4 polygonal holes, rings in random orientation."""
+    s = r.uniform(0.6, 1.2)
+    th = r.choice((0.0, r.uniform(0, 2 * math.pi)))
+    ox, oy = r.uniform(-3, 0), r.uniform(-3, 0)
+
+    def tf(pt):
+        x, y = pt
+        return [q(s * (x * math.cos(th) - y * math.sin(th)) + ox), q(s * (x * math.sin(th) + y * math.cos(th)) + oy)]
+    outer = [tf(pt) for pt in [(0, 0), (4, 0), (4, 3), (0, 3)]]
+    if r.random() < 0.5:
+        outer = outer[::-1]
+    k = r.choice((0, 1, 2, 2, 3, 4))
+    holes = []
+    for h in r.sample(_HOLES, k):
+        ring = [tf(pt) for pt in h]
+        if r.random() < 0.5:
+            ring = ring[::-1]
+        holes.append(ring)
+    return {"k": "poly", "var": var, "verts": outer, "holes": holes}
+
+
 def gen_prim2(r, var="x", pvar=None, p_dep=0.0, allow_poly=False):
     ks = ["circ", "par", "tri"] + (["poly"] if allow_poly else [])
     k = r.choice(ks)
